@@ -17,4 +17,11 @@ CHECKS = {
         technique=T_INPROC + " (plain re-execution after a create+fix run)",
         ref="DESIGN.md section 4 C02",
     ),
+    "C05": dict(
+        level="exploration",
+        text="Recording-style programs (previous value or none x operation x observation sequence) are run by the real code once per approved subset F; per site the change flags read at quiescence and the value the rewritten argument evaluates to are compared with an independent executable model of the documented category algebra (ismon/models.py): reported create/fix/trim, fix <=> some comparison fails, value after F, update-only never changes the value. Random exploration over sites x all 16 subsets (thorough) / 6 subsets (quick).",
+        note="Model written from docs/categories.md; same value = Python ==, `in` lists compared without order. One recorded finding (F13, positional constructor arguments) is classified by a counterfactual re-run.",
+        technique="runtime monitoring: per-site change-flag probe + evaluated arguments vs executable reference model of the category algebra",
+        ref="DESIGN.md section 4 C05",
+    ),
 }
